@@ -33,6 +33,7 @@ type concScenario struct {
 	Kind      string     `json:"kind"`
 	Versions  []treeSpec `json:"versions"`
 	Progs     []prog     `json:"progs"`
+	Env       envSpec    `json:"env"`
 	SchedSeed int64      `json:"sched_seed"`
 	Burst     int        `json:"burst"` // maximal number of consecutive remote operations given to one client
 }
@@ -48,7 +49,12 @@ type callRec struct {
 
 func runConc(r *h.Run, sc concScenario) {
 	r.Eval()
+	setEnv(sc.Env)
 	w := newWorld(sc.Versions)
+	for i := range sc.Progs {
+		w.dirtyDest(fmt.Sprintf("/dst/c%d", i))
+	}
+	w.dirtyDest("/dst/final")
 	// version 0 is stored up front so that early Fetches have something to find
 	c0 := w.newClient(sc.Kind, 2*time.Second, true)
 	if err := c0.store(0); err != nil {
@@ -158,7 +164,7 @@ func runConc(r *h.Run, sc concScenario) {
 		if c.Kind == "fetch" {
 			r.Count("conc-fetch:" + c.Res)
 			if c.Res == "ok" && (c.Installed < 0 || !stored[c.Installed]) {
-				r.Fail("fetch-success-not-a-stored-version:"+sc.Kind+":concurrent:"+c.Damage,
+				r.Fail("fetch-success-not-a-stored-version:"+sc.Kind+":concurrent:"+c.Damage+sc.Env.sig(),
 					fmt.Sprintf("client %d: Fetch reported success under a concurrent schedule but the destination holds %s", c.Client, c.Damage), sc)
 			}
 		}
@@ -174,10 +180,10 @@ func runConc(r *h.Run, sc concScenario) {
 	if err == nil {
 		v, dmg := w.installed("/dst/final")
 		if v < 0 || !stored[v] {
-			r.Fail("fetch-success-not-a-stored-version:"+sc.Kind+":after-concurrent:"+dmg, "final Fetch reported success but the destination holds "+dmg, sc)
+			r.Fail("fetch-success-not-a-stored-version:"+sc.Kind+":after-concurrent:"+dmg+sc.Env.sig(), "final Fetch reported success but the destination holds "+dmg, sc)
 		}
 	} else if !anyErrFault {
-		r.Fail("store-success-not-visible:"+sc.Kind+":after-concurrent:fetch-fails-"+errKind(err),
+		r.Fail("store-success-not-visible:"+sc.Kind+":after-concurrent:fetch-fails-"+errKind(err)+sc.Env.sig(),
 			"Stores reported success (no I/O fault injected) but the final fault-free Fetch fails: "+err.Error(), sc)
 	}
 	r.Count(fmt.Sprintf("conc:%s:%d-clients", sc.Kind, n))
@@ -191,7 +197,7 @@ func runConc(r *h.Run, sc concScenario) {
 
 func genConc(r *h.Run, idx int) concScenario {
 	n := 2 + r.Rng.Intn(3)
-	sc := concScenario{Type: "conc", Kind: "immutable", SchedSeed: r.Rng.Int63(), Burst: []int{1, 1, 3, 12}[r.Rng.Intn(4)]}
+	sc := concScenario{Type: "conc", Kind: "immutable", Env: envFor(idx), SchedSeed: r.Rng.Int63(), Burst: []int{1, 1, 3, 12}[r.Rng.Intn(4)]}
 	nv := 1
 	for i := 0; i < n; i++ {
 		var p prog
@@ -230,17 +236,22 @@ type contender struct {
 
 type gatedScenario struct {
 	Type       string      `json:"type"` // "gated"
+	Env        envSpec     `json:"env"`
 	Versions   []treeSpec  `json:"versions"`
 	Holder     opSpec      `json:"holder"`
 	PauseAt    int         `json:"pause_at"` // the holder pauses at its PauseAt-th operation on the remote package / side file after acquiring
 	Contenders []contender `json:"contenders"`
 }
 
-const lockDirPath = entryDir + "/lockfile-SharedMutableCache-" + cacheKey
-
 func runGated(r *h.Run, sc gatedScenario) {
 	r.Eval()
+	setEnv(sc.Env)
 	w := newWorld(sc.Versions)
+	w.dirtyDest("/dst/holder")
+	w.dirtyDest("/dst/final")
+	for i := range sc.Contenders {
+		w.dirtyDest(fmt.Sprintf("/dst/k%d", i))
+	}
 	c0 := w.newClient("mutable", 2*time.Second, true)
 	if err := c0.store(0); err != nil {
 		r.Note("gated: initial store failed: " + err.Error())
@@ -392,7 +403,7 @@ func runGated(r *h.Run, sc gatedScenario) {
 }
 
 func genGated(r *h.Run, idx int) gatedScenario {
-	sc := gatedScenario{Type: "gated", Versions: specsFor(int64(idx)*3+r.Seed, 4, idx)}
+	sc := gatedScenario{Type: "gated", Env: envFor(idx), Versions: specsFor(int64(idx)*3+r.Seed, 4, idx)}
 	if idx%2 == 0 {
 		sc.Holder = opSpec{Op: "store", Ver: 1}
 	} else {
@@ -441,7 +452,7 @@ func otherScenarios(r *h.Run) {
 	for i, n := 0, r.N(10, 60); i < n; i++ {
 		runGated(r, genGated(r, i))
 	}
-	for i, n := 0, r.N(150, 1500); i < n; i++ {
+	for i, n := 0, r.N(120, 1500); i < n; i++ {
 		runConc(r, genConc(r, i))
 	}
 	zipcutScenarios(r)
